@@ -6,6 +6,8 @@ import (
 	"sort"
 	"strings"
 	"time"
+	"unicode"
+	"unicode/utf8"
 
 	"go.lsp.dev/protocol"
 
@@ -156,6 +158,19 @@ func determineCompletionContext(content string, pos protocol.Position, ctx *prot
 	if strings.HasPrefix(line, directiveApplyAccount) {
 		return ContextAccount
 	}
+	if strings.HasPrefix(line, "D ") {
+		// D <amount>: a number and a commodity, on either side
+		return ContextCommodity
+	}
+	if strings.HasPrefix(line, "P ") {
+		// P <date> <commodity> <amount>: after the date everything names a commodity or is a number
+		byteCol := min(lsputil.UTF16OffsetToByteOffset(line, int(pos.Character)), len(line))
+		typed := strings.TrimLeft(line[min(2, byteCol):byteCol], " \t")
+		if strings.ContainsAny(typed, " \t") {
+			return ContextCommodity
+		}
+		return ContextDate
+	}
 
 	// a posting line is indented by any amount of blanks (hledger wants at
 	// least one; the formatter itself writes indentSize of them)
@@ -187,17 +202,30 @@ func determinePostingContext(line string, pos protocol.Position) CompletionConte
 		return ContextAccount
 	}
 
-	relativePos := posInContent - parts.separatorIdx - parts.skipSpaces
-	if relativePos <= parts.amountEnd {
+	// between the account and the cursor stands the amount as far as it is
+	// typed: a number in any notation, with the commodity on either side, and
+	// possibly a cost or a balance assertion (which may also stand alone).
+	// Where a number is being typed, or nothing yet, no commodity is
+	start := parts.indent + parts.separatorIdx + parts.skipSpaces
+	if start > byteCol || byteCol > len(line) {
+		return ContextAccount
+	}
+	typed := line[start:byteCol]
+	if strings.TrimSpace(typed) == "" {
+		return ContextAccount
+	}
+	if last := typed[len(typed)-1]; isDigitOrSign(last) || last == '.' || last == ',' || last == '_' || last == '(' {
 		return ContextAccount
 	}
 
 	return ContextCommodity
 }
 
+// findDoublespace returns where the account name ends: at two blanks, or at
+// a tab.
 func findDoublespace(s string) int {
-	for i := 0; i < len(s)-1; i++ {
-		if s[i] == ' ' && s[i+1] == ' ' {
+	for i := 0; i < len(s); i++ {
+		if s[i] == '\t' || (s[i] == ' ' && i+1 < len(s) && (s[i+1] == ' ' || s[i+1] == '\t')) {
 			return i
 		}
 	}
@@ -252,7 +280,7 @@ func parsePosting(line string) postingParts {
 
 	parts.account = trimmed[:parts.separatorIdx]
 	afterSeparator := trimmed[parts.separatorIdx:]
-	parts.afterAccount = strings.TrimLeft(afterSeparator, " ")
+	parts.afterAccount = strings.TrimLeft(afterSeparator, " \t")
 	parts.skipSpaces = len(afterSeparator) - len(parts.afterAccount)
 	parts.amountEnd = findAmountEnd(parts.afterAccount)
 
@@ -680,11 +708,7 @@ func calculateTextEditRange(content string, pos protocol.Position, ctxType Compl
 			startByte = accountFragmentStart(line[:byteCol])
 		}
 	case ContextCommodity:
-		if strings.HasPrefix(line, directiveCommodity) {
-			startByte = len(directiveCommodity)
-		} else {
-			startByte = findCommodityStart(line, byteCol)
-		}
+		startByte = commodityStartAt(line, byteCol)
 	case ContextPayee:
 		startByte = payeeFragmentStart(line[:byteCol])
 	default:
@@ -754,38 +778,39 @@ func payeeFragmentStart(beforeCursor string) int {
 	return i
 }
 
-func findCommodityStart(line string, byteCol int) int {
-	parts := parsePosting(line)
-	if parts.separatorIdx == -1 {
+// commodityFragmentStart returns where the commodity being typed starts in
+// the text before the cursor: at the beginning of the run of name characters
+// that ends it. A digit, a sign, a number mark, an operator, a blank, a quote
+// or a bracket is no part of a name (a point after a letter is); with no name character typed yet the
+// fragment is empty and starts at the cursor.
+func commodityFragmentStart(beforeCursor string) int {
+	i := len(beforeCursor)
+	for i > 0 {
+		r, size := utf8.DecodeLastRuneInString(beforeCursor[:i])
+		if r == '.' {
+			// a point after a letter belongs to a name ("Inc."), one after a digit to a number
+			if prev, _ := utf8.DecodeLastRuneInString(beforeCursor[:i-size]); unicode.IsLetter(prev) {
+				i -= size
+				continue
+			}
+			break
+		}
+		if unicode.IsSpace(r) || (r >= '0' && r <= '9') || strings.ContainsRune("-+,_@=*;:\"'()[]{}|!<>/\\", r) {
+			break
+		}
+		i -= size
+	}
+	return i
+}
+
+// commodityStartAt is commodityFragmentStart for a cursor inside a line. In
+// front of a number nothing of a name is being typed: what would be offered
+// there is put in front of the number.
+func commodityStartAt(line string, byteCol int) int {
+	if byteCol < len(line) && line[byteCol] >= '0' && line[byteCol] <= '9' {
 		return byteCol
 	}
-
-	commodityStart := parts.indent + parts.separatorIdx + parts.skipSpaces + parts.amountEnd
-
-	for commodityStart < len(line) && line[commodityStart] == ' ' {
-		commodityStart++
-	}
-
-	// with a cost or a balance assertion before the cursor, the commodity being
-	// typed is the one after the number that follows the last "@" or "="
-	if commodityStart < byteCol && byteCol <= len(line) {
-		if op := strings.LastIndexAny(line[commodityStart:byteCol], "@="); op >= 0 {
-			i := commodityStart + op + 1
-			skipBlanks := func() {
-				for i < byteCol && line[i] == ' ' {
-					i++
-				}
-			}
-			skipBlanks()
-			for i < byteCol && (isDigitOrSign(line[i]) || line[i] == '.' || line[i] == ',' || line[i] == '_') {
-				i++
-			}
-			skipBlanks()
-			commodityStart = i
-		}
-	}
-
-	return commodityStart
+	return commodityFragmentStart(line[:byteCol])
 }
 
 func extractQueryText(content string, pos protocol.Position, ctxType CompletionContextType) string {
@@ -828,18 +853,8 @@ func extractQueryText(content string, pos protocol.Position, ctxType CompletionC
 		return strings.TrimLeft(beforeCursor[start:], " \t")
 
 	case ContextCommodity:
-		if after, found := strings.CutPrefix(beforeCursor, directiveCommodity); found {
-			return after
-		}
-		if findDoublespace(strings.TrimLeft(beforeCursor, " \t")) == -1 {
-			return ""
-		}
 		// the same start as the edit range: what is filtered is what is replaced
-		start := findCommodityStart(line, byteCol)
-		if start >= byteCol {
-			return ""
-		}
-		return beforeCursor[start:]
+		return beforeCursor[commodityStartAt(line, byteCol):]
 
 	default:
 		return ""
